@@ -36,6 +36,40 @@ def referenced_rects(g):
     return out
 
 
+def has_own_node(g, i):
+    """An unpopulated cell gets a data node of its own when a formula (or a name) refers
+    to it directly, or when it is the only unpopulated cell of a referenced range (the
+    library keeps one missing cell per range as a node and assembles ranges with more
+    through the SELF look-up)."""
+    single = set()
+
+    def walk(e):
+        if e[0] == 'ref':
+            single.add(e[1])
+        elif e[0] == 'op':
+            walk(e[2]); walk(e[3])
+        elif e[0] == 'un':
+            walk(e[2])
+        elif e[0] == 'fn':
+            for a in e[2]:
+                walk(a)
+    for c in g.cells.values():
+        if 'e' in c:
+            walk(c['e'])
+    for e in g.names.values():
+        if e[0] == 'ref':
+            single.add(e[1])
+    if i in single:
+        return True
+    rects = referenced_rects(g) + [e for e in g.names.values() if e[0] == 'rng']
+    for e in rects:
+        ids = [x for row in g.rect_ids(e) for x in row]
+        missing = [x for x in ids if x not in g.cells]
+        if missing == [i]:
+            return True
+    return False
+
+
 def make_ovsets(g, rnd, n=3):
     """n abstract override sets {id: value} (+ how each may be supplied)."""
     consts = [i for i, c in g.cells.items() if c['k'] == 'c']
